@@ -3,7 +3,7 @@
 usage: seed_wave.py <root with Cxx worktrees> <first new index>   (e.g. /tmp/mut3 3  ->  Cxx-m3..m5)"""
 import json, os, re, shutil, subprocess, sys
 root, first = sys.argv[1], int(sys.argv[2])
-extra = {"C16/m3": ["C12"], "C14/m3": ["C03"], "C04/m1": ["C02"], "C01/m3": ["C04"]}
+extra = {"C16/m3": ["C12"], "C14/m3": ["C03"], "C04/m1": ["C02"], "C01/m3": ["C04"]} if "mut3" in root else {}
 props = sorted(d for d in os.listdir(root) if re.fullmatch(r"C\d\d", d) and os.path.isdir(os.path.join(root, d, "out")))
 text = {json.loads(l)["id"]: json.loads(l) for l in open("/verif/properties.jsonl")}
 head = subprocess.run(["git", "-C", "/repo", "log", "--format=%h", "-1"], capture_output=True, text=True).stdout.strip()
@@ -44,7 +44,7 @@ for p in props:
             "property": p,
             "breaks": f"{p}: {text[p]['title']}",
             "needs_to_manifest": "see README.md (written by the author of the change)",
-            "author": "independent sub-agent (wave 3) given only the property text and a scratch worktree of /repo (no access to /verif)",
+            "author": "independent sub-agent (wave " + ("3" if "mut3" in root else "4") + ") given only the property text and a scratch worktree of /repo (no access to /verif)",
             "confirmed": {"how": f"scripts/confirm_mutant.sh in the scratch worktree {root}/{p}: patch applies, go build ./... ok, existing suite passes with the patch, demo (copied into {first_line[1]}, go test -run {first_line[2]}) fails with the patch and passes without it",
                           "suite_with_patch": c[0], "demo_with_patch": c[1], "demo_without_patch": c[2]},
             "demo": {"copy_to": first_line[1] + "/", "run": f"GOFLAGS=-mod=mod go test -vet=off -count=1 -run '{first_line[2]}' ./{first_line[1]}/"},
